@@ -252,27 +252,16 @@ def r3_emission_order(ctx):
                       'the event buffer is only appended to and drained: `%s` in %s could reorder or drop buffered events' % (short(s.name), short(g.key)),
                       s.where(), s.name)
     ctx.floor('operations on the event buffer', n, 4)
-    # the flush loop
-    adds = [s for s in f.calls() if s.name == 'des::runtime::Runtime::add_event' and f.loops_containing(s.b)]
+    # the flush: add_event once per element of a forward drain of the buffer (loop or for_each form)
+    adds = per_item_calls(P, f, 'des::runtime::Runtime::add_event')
     if not ctx.floor('add_event in the flush loop of buf_process', len(adds), 1):
         return
-    for s in adds:
-        ev = peel(f.expr_operand(s.args[1], s.b, 'T'))
-        nxt = [x for x in walk(ev) if x[0] == 'call' and (x[1].endswith('::next') and 'Iterator' in x[1])]
-        ok = False
-        detail = show(ev)
-        if nxt:
-            it = peel(nxt[0][2][0])
-            # iterator value: into_iter(drain(&mut events, ..))
-            while it[0] == 'call' and (it[1].endswith('::into_iter') and 'IntoIterator' in it[1]):
-                it = peel(it[2][0])
-            ok = it[0] == 'call' and it[1] == 'std::vec::Vec::drain' and receiver_field(it[2][0]) is not None
-            detail = show(it)
-        ctx.check(ok, 'flush-forward-drain', 'buffered events are handed to the runtime by a forward drain of the buffer (emission order)', s.where(), detail)
-        # time operand comes from the same item
-        tm = peel(f.expr_operand(s.args[2], s.b, 'T'))
-        ok2 = any(x[0] == 'call' and (x[1].endswith('::next') and 'Iterator' in x[1]) for x in walk(tm))
-        ctx.check(ok2, 'flush-time-same-item', 'each event is scheduled with the time buffered with it', s.where(), show(tm))
+    for g, s, it, trees in adds:
+        ok = it is not None and it[0] == 'call' and it[1] == 'std::vec::Vec::drain' and receiver_field(it[2][0]) is not None \
+            and peel(it[2][1])[0] == 'agg' and 'RangeFull' in str(peel(it[2][1])[1])
+        ctx.check(ok, 'flush-forward-drain', 'buffered events are handed to the runtime by a forward drain of the whole buffer (emission order)', s.where(), show(it) if it else None)
+        ok2 = len(trees) >= 3 and from_item(g, trees[1]) and from_item(g, trees[2])
+        ctx.check(ok2, 'flush-time-same-item', 'each event is scheduled with the time buffered with it', s.where(), show(trees[2]) if len(trees) > 2 else None)
     # the generic sink for Vec pushes
     g = [x for x in P.fn_list if x.trait and strip_generics(x.trait) == 'des::runtime::event::EventSink' and x.name == 'add' and 'Vec' in (x.self_ty or '')]
     if ctx.floor('EventSink impl for Vec', len(g), 1):
